@@ -34,7 +34,9 @@ let parse_label (t : string) : side * frame =
   let f = match split ':' (String.sub t 2 (String.length t - 2)) with "" :: r -> r | r -> r in
   let fr = match t.[0], f with
     | 'D', [s; es; pad; d] -> FData (nd s, bl es, data_of_tok d, pad_of pad)
-    | 'H', [s; es; eh; pr; _pad; fid; _cut] -> FHeaders (nd s, bl es, bl eh, prio_of pr, nd fid)
+    (* e0: the frame's fragment is empty: field list 6 is the empty list; cut = 0 bytes *)
+    | 'H', [s; es; eh; pr; _pad; fid; cut] ->
+        FHeaders (nd s, bl es, bl eh, prio_of pr, nd fid, fid = "6" || (eh = "0" && int_of_string cut <= 0))
     | 'C', [s; eh; _cut] -> FCont (nd s, bl eh)
     | 'P', [s; pr] -> (match prio_of pr with Some p -> FPriority (nd s, p) | None -> failwith "P")
     | 'R', [s; c] -> FRst (nd s, nd c)
@@ -129,6 +131,15 @@ let pr_wire = function
   | WWin (s, n) -> "w:" ^ dec_of_n s ^ ":" ^ dec_of_n n
 let pr_evs evs = String.concat "," (List.map (fun (x, w) -> (match x with Cl -> "c<" | Sv -> "s<") ^ pr_wire w) evs)
 
+(* C09 compares header blocks by stream/kind/priority only: END_STREAM of continued
+   blocks and HPACK decodability are C08's subject (and C08's fixes) *)
+let norm_evs evs =
+  (* C08 does not compare credit (WINDOW_UPDATE values are C09's subject and fix) *)
+  if prop <> "C09" then List.filter (fun (_, w) -> match w with WWin _ -> false | _ -> true) evs else
+  List.map (fun (x, w) -> match w with
+    | WBlock (s, p, _, pr, q, _) -> (x, WBlock (s, p, false, pr, q, N0))
+    | w -> (x, w)) evs
+
 let rec take k l = if k <= 0 then [] else match l with [] -> [] | a :: t -> a :: take (k - 1) t
 
 let judge_pre ins outs =
@@ -165,9 +176,10 @@ let judge _name ins outs =
       (* 1. the relay must not stop on a script the model accepts *)
       let (_, mobs) = run s0 labels in
       let nmodel = List.length mobs in
-      if errstep && nmodel > List.length good && (List.nth rsteps (List.length good)).err = Some "PREFACE" then
+      let valid_upto_err = rfc_valid (take (List.length good + 1) labels) in
+      if errstep && valid_upto_err && (List.nth rsteps (List.length good)).err = Some "PREFACE" then
         VPropfail ("preface_e2e", "Config.Proxy refused a valid client preface delivered in pieces (" ^ mode ^ ")")
-      else if errstep && nmodel > List.length good then
+      else if errstep && valid_upto_err then
         VPropfail ("relay_error",
                    Printf.sprintf "relay stopped at label %d (%s) of an RFC-valid script: %s"
                      (List.length good) (List.nth ltoks (List.length good))
@@ -184,7 +196,10 @@ let judge _name ins outs =
           else if not (b_strand ls o) then Some "no_stranding"
           else None
         else
-          if not (b_faithful false ls o) then Some "stream_faithful"
+          if List.exists (List.exists (fun (_, w) -> match w with
+               | WBlock (_, _, _, _, _, fid) -> int_of_n fid = 999 | _ -> false)) o
+          then Some "header_decode"
+          else if not (b_faithful false ls o) then Some "stream_faithful"
           else if not (b_direct ls o) then Some "direct_identical"
           else if not (c08_prio_ok ls o) then Some "headers_priority_flag"
           else None in
@@ -210,7 +225,10 @@ let judge _name ins outs =
                   | "exact_credit" -> b_credit lsi oi | "conn_window" -> b_conn lsi oi
                   | "stream_window" -> b_stream lsi oi | "frame_size" -> b_frame lsi oi
                   | "no_stranding" -> b_strand lsi oi | "stream_faithful" -> b_faithful false lsi oi
-                  | "direct_identical" -> b_direct lsi oi | _ -> c08_prio_ok lsi oi in
+                  | "direct_identical" -> b_direct lsi oi
+                  | "header_decode" -> not (List.exists (List.exists (fun (_, w) -> match w with
+                        | WBlock (_, _, _, _, _, fid) -> int_of_n fid = 999 | _ -> false)) oi)
+                  | _ -> c08_prio_ok lsi oi in
                 if not okc then begin k := i; raise Exit end
               done
             with Exit -> ());
@@ -232,7 +250,7 @@ let judge _name ins outs =
           | Some _, None -> res := Some (VDisagree (Printf.sprintf "label %d: no observation" i))
           | Some (st', mevs), Some r ->
               if r.err <> None then res := Some (VDisagree (Printf.sprintf "label %d: relay error, model continues" i))
-              else if not (step_agrees mevs r.evs) then
+              else if not (step_agrees (norm_evs mevs) (norm_evs r.evs)) then
                 res := Some (VDisagree (Printf.sprintf "label %d (%s): model=%s real=%s" i (List.nth ltoks i) (pr_evs mevs) (pr_evs r.evs)))
               else begin
                 st := st';
